@@ -822,7 +822,33 @@ func %[5]s%[1]s_wt%[6]d(m *%[1]s, p []byte) {
 `, t.Name, t.Unknown, ka, accepted, uname, wt, kl, unk)
 				fmt.Fprintf(&c, "\n//@ func %s%s_wt%d(m *%s, p []byte)\n//@   harness\n//@   inlines Unmarshal\n//@   cuts\n//@   outer 1\n//@   bounded %d the input is exactly one well-formed field of wire type %d with the minimally encoded key of field number %d, which the schema does not define; payload arbitrary\n", uname, t.Name, wt, t.Name, unmarshalFields, wt, unk)
 			}
-			if false && len(t.Fields) <= 4 && len(t.Maps) == 0 {
+			if len(t.Fields) <= 6 && len(t.Maps) == 0 {
+				// two unknown fields in a row, as a literal input: two one-byte varint fields
+				kbs := keyBytes(0)
+				var parts []string
+				for rep := 0; rep < 2; rep++ {
+					for _, b := range kbs {
+						parts = append(parts, fmt.Sprintf("0x%02x", b))
+					}
+					parts = append(parts, fmt.Sprintf("b%d", rep))
+				}
+				n := len(parts)
+				var eqs []string
+				for i := 0; i < n; i++ {
+					eqs = append(eqs, fmt.Sprintf("m.%s[%d] == p[%d]", t.Unknown, i, i))
+				}
+				fmt.Fprintf(&h, `
+func lemma_c07v_%[1]s(m *%[1]s, b0, b1 byte) {
+	gocv_assume(m != nil && b0 < 0x80 && b1 < 0x80)
+	p := []byte{%[3]s} // unknown field %[5]d (varint, one payload byte), twice
+	err := m.Unmarshal(p)
+%[4]s	gocv_assert(len(m.%[2]s) == %[6]d, "both-unknown-fields-retained")
+	gocv_assert(%[7]s, "unknown-fields-retained-in-order")
+}
+`, t.Name, t.Unknown, strings.Join(parts, ", "), accepted, unk, n, strings.Join(eqs, " && "))
+				fmt.Fprintf(&c, "\n//@ func lemma_c07v_%s(m *%s, b0, b1 byte)\n//@   harness\n//@   inlines Unmarshal\n//@   cuts\n//@   outer 2\n//@   bounded %d the input is exactly two unknown varint fields with one payload byte each\n", t.Name, t.Name, unmarshalFields)
+			}
+			if false {
 				// two unknown fields in a row (NOT generated: after the first iteration the cursor is a
 				// merge over every dispatch case and the second Skip's premises are not decided in
 				// useful time; see DESIGN.md 0.7)
